@@ -221,3 +221,9 @@ def run(F, rep):
     # ------------------------------------------------------------------ Q: what ends up in computeComputedConstants
     import requalify
     requalify.rule_requalify(F, rep, 'C17.Q1', 'C17.Q2')
+
+    # ------------------------------------------------------------------ loop-carried locals
+    from engines import rule_loop_state
+    rule_loop_state(F, rep, 'C17.S1', lambda g: g.file.endswith('/generator.cpp'), 'generator.cpp')
+
+
